@@ -127,8 +127,30 @@ def count_case(cid, rng):
     return Case(cid, L, oracle=oracle, meta={"dist": {"kind": "colcount", "cols": n}})
 
 
+def read_then_add_case(cid, rng, n):
+    """a slice handed out by the reader keeps the invariants the mutators rely on: a column slice can be appended to it"""
+    t = G.rand_table(rng, ncols=n, nslices=1, maxrows=3)
+    data = bytes(G.encode_table(t).b)
+    ty = rng.choice(ALLTYPES)
+    L = ["in 1 %s" % hx(data), "rfh 1", "rtm 1 50", "rts 1 50 50", "tsdump 50",
+         obj_line(1, ty, rand_array(rng, ty, 2)), "va 1 -1 1", "csnew 1 1", "tsadd 50 1", "tsdump 50",
+         "csnew 2 1", "tsadd 50 2", "tsdump 50", "csforget 1", "csforget 2"]
+
+    def oracle(c):
+        f = []
+        if c.val(4) != "0": return ["reading the slice failed: %s" % c.val(4)]
+        for ln, want in ((9, n + 1), (12, n + 2)):
+            if c.val(ln) != "0": f.append("sbdf_ts_add on a slice built by the reader returned %s" % c.val(ln))
+            elif ("cols=%d " % want) not in (c.val(ln + 1) or "") + " ": f.append("after the addition the slice does not list %d columns: %s" % (want, (c.val(ln + 1) or "")[:60]))
+        return f
+    return Case(cid, L, oracle=oracle, compare=False, meta={"dist": {"kind": "read-then-add", "cols": n}})
+
+
 def cases(rng, tier):
     idx = 0
+    for n in ([1, 2, 3, 4, 5, 6, 7, 8, 11, 12] if tier != "search" else [3, 5]):
+        idx += 1
+        yield read_then_add_case("ra%d" % idx, rng, n)
     for i in range({"quick": 300, "thorough": 6000, "search": 200}[tier]):
         idx += 1
         yield cs_history("a%d" % idx, rng, rng.choice([1, 2, 3, 4, 6, 10]))
